@@ -195,4 +195,32 @@ def newConn (g : Global) (info : ConnInfo) (statsEnabled : Bool) : Conn × List 
     c.addRecorder (.log l2)
   else (c, [])
 
+/-- mirrors LogOperationRecorder.copy / TestClientRecorder.copy: the user-specifiable attributes (detail levels; the
+    file) are kept, everything else is as after __init__ (enabled, nothing staged, maximum lengths recomputed) -/
+def copyRec (g : Global) : Recorder → Recorder
+  | .log l =>
+    let l0 : LogRec := { apiOn := loggerOn g true, httpOn := loggerOn g false }
+    let l1 := match l.apiLevel with | some d => l0.setDetail true d | none => l0
+    let l2 := match l.httpLevel with | some d => l1.setDetail false d | none => l1
+    .log l2
+  | .tcr _ => .tcr {}
+
+/-- one iteration of the loop of copy(): a recorder of the same class (added by __init__) makes room, then the copy
+    is added (add_operation_recorder: stage_wbem_connection logs the connection for a log recorder) -/
+def addCopies (g : Global) (c : Conn) : List Recorder → Conn × List Event
+  | [] => (c, [])
+  | r :: rs =>
+    let c0 := { c with recorders := c.recorders.filter (fun x => !sameClass r x) }
+    let (c1, ev1) := c0.addRecorder (copyRec g r)
+    let (c2, ev2) := addCopies g c1 rs
+    (c2, ev1 ++ ev2)
+
+/-- mirrors WBEMConnection.copy() (as fixed): a new connection with the same parameters; copies of the recorders of
+    the original take the place of a recorder of the same class that __init__ added (logging activated for future
+    connections) -/
+def copyConn (g : Global) (c : Conn) : Conn × List Event :=
+  let (c0, ev0) := newConn g c.info c.stats.enabled
+  let (c1, ev1) := addCopies g c0 c.recorders
+  (c1, ev0 ++ ev1)
+
 end Pywbem.Model.LogConfig
